@@ -170,6 +170,9 @@ func poolByName(name string, quick bool) *hist.Pool {
 	if name == "siblings" {
 		return c02.SiblingPool()
 	}
+	if name == "methods" {
+		return c02.MethodPool()
+	}
 	return c02.PoolFor(quick)
 }
 
@@ -334,7 +337,9 @@ func run(c *mc.Ctx, r *mc.Result) {
 	if c.Quick() {
 		runPool(c, r, "prefixes", c02.PoolFor(true), 2, 3, 40000)
 		runPool(c, r, "siblings", c02.SiblingPool(), 4, 4, 8000)
+		runPool(c, r, "methods", c02.MethodPool(), 3, 3, 20000)
 	} else {
+		runPool(c, r, "methods", c02.MethodPool(), 4, 4, 100000)
 		runPool(c, r, "prefixes", c02.PoolFor(true), 3, 4, 400000)
 		runPool(c, r, "siblings", c02.SiblingPool(), 6, 5, 60000)
 	}
